@@ -560,7 +560,11 @@ def build_world(cfg):  # noqa: PLR0915, C901
         finally:
             W.depth -= 1
         if is_provider and top:
-            drain_sco()
+            W.depth += 1          # notifications sent while the queued operation runs belong to this request
+            try:
+                drain_sco()
+            finally:
+                W.depth -= 1
         after = snapshot(deep=W.deep_now) if (is_provider and top) else None
         frames = [f for f in W.last_frames[mark:]]
         own = None
